@@ -376,9 +376,6 @@ func gwSeq(c *Ctx, conf gateway.Config, rules []gw.HTTPRouteRule, exists bool, s
 	conf.Key = "verif"
 	conf.TrafficConf = &v1beta1.GatewayTrafficRouting{HTTPRouteName: &routeName}
 	ctl, err := gateway.NewGatewayTrafficRouting(cli, conf)
-	if err != nil {
-		panic(err)
-	}
 	read := func() interface{} {
 		var r gw.HTTPRoute
 		if err := cli.Get(context.TODO(), types.NamespacedName{Namespace: ns, Name: name}, &r); err != nil {
@@ -403,6 +400,24 @@ func gwSeq(c *Ctx, conf gateway.Config, rules []gw.HTTPRouteRule, exists bool, s
 	var inRules interface{}
 	if exists {
 		inRules = gwRules(rules)
+	}
+	if err != nil {
+		// the constructor refuses the configuration (canary Service name = stable Service name): no provider, no call
+		inSteps := []interface{}{}
+		for _, s := range steps {
+			var tr interface{}
+			if s.Traffic != nil {
+				if n, ok := pctOf(*s.Traffic); ok {
+					tr = J{"p": n}
+				} else {
+					tr = J{"s": *s.Traffic}
+				}
+			}
+			inSteps = append(inSteps, J{"traffic": tr, "matches": gwUMatches(s.Matches), "rep": s.Rep})
+		}
+		c.Emit("seq", J{"conf": gwConfJ(conf), "rules": inRules, "steps": inSteps, "fin": fin, "conflictAt": conflictAt, "conflictHit": false},
+			J{"refused": true})
+		return
 	}
 	inSteps := []interface{}{}
 	implSteps := []interface{}{}
